@@ -23,7 +23,9 @@ bytes apply_edits(const bytes &file, const std::string &edits);
 
 // run verify (with an output stream supplied) and decrypt on every file in one forked child (canonical
 // schedule); if the batch child does not survive, every file is re-run in its own child to attribute it
-std::vector<DV> batch_dv(const std::vector<bytes> &files, const std::vector<bytes> &keys, int T, int chunk, int refill = 0);
+// batch_only (optional): set when a batch child did not end normally although every one of its files, run alone in its
+// own child, did - something an earlier file of the batch left behind in the process
+std::vector<DV> batch_dv(const std::vector<bytes> &files, const std::vector<bytes> &keys, int T, int chunk, int refill = 0, std::string *batch_only = nullptr);
 
 // authenticity as the reference sees it: magic ok, mode bytes in range, >= 74 bytes, stored tag == HMAC(key, file[48:])
 bool ref_authentic(const bytes &file, const bytes &key);
